@@ -374,6 +374,11 @@ def run(case, ctx):
             ctx.violate("C20/required", f"node {i}: required={n.get('required')!r}, but an always-applicable required_keys "
                         f"condition of the parent {'names' if want else 'does not name'} it\n rules={clean}")
             break
+    # history: producing the tree (flat, nested, html) leaves the schema unchanged and is repeatable
+    ok, flat2 = call(schema.to_tree, nested=False, **kw)
+    if not ok or [tuple(n["path_str"]) for n in flat2] != got_ids or \
+            [bool(n.get("required")) for n in flat2] != [bool(n.get("required")) for n in flat]:
+        ctx.violate("C20/not-repeatable", "a second to_tree() differs from the first")
     # HTML
     tree = nest if True else flat
     ok, out = call(write_tree_html, tree, anchor_root=anchor)
